@@ -29,22 +29,22 @@ namespace BiotiteModel.C19
 constants, signatures); `Pinned.*` is what the hand-written model was written against. -/
 
 /-- Constants and comparison operators the model hard-codes: `illegal_chars`, the NJ size guard `< 4`, the
-strict `<` of both minimum searches, `height = dist_min/2`, `n_rem_nodes > 3`, `(n_rem_nodes − 2)`, the factor
+strict `<` of both minimum searches, `height = dist_min/2` (read as the reduced factor 1/2, so `0.5 * dist_min` is the same fact), `n_rem_nodes > 3`, `(n_rem_nodes − 2)`, the factor
 0.5 — and the model really uses these values. -/
 theorem C19_gen_constants :
     Gen.C19.illegalChars = illegalChars.map Char.toNat ∧ Gen.C19.njMinNodes = 4 ∧
     Gen.C19.njMinRowsCmp = ("<", 4) ∧ Gen.C19.upgmaScanCmp = "<" ∧ Gen.C19.njScanCmp = "<" ∧
-    Gen.C19.upgmaHeightDivisor = 2 ∧ Gen.C19.njJoinCmp = (">", 3) ∧ Gen.C19.njCorrOffset = 2 ∧
+    Gen.C19.upgmaHeightFactor = (1, 2) ∧ Gen.C19.njJoinCmp = (">", 3) ∧ Gen.C19.njCorrOffset = 2 ∧
     Gen.C19.njHalf = (5, 10) ∧
     (∀ (n : Nat) (s : UState) (m : Rat) (i j : Nat),
-      (s.merge n m i j).ht i = m / ((Gen.C19.upgmaHeightDivisor : Nat) : Rat)) ∧
+      (s.merge n m i j).ht i = m * (((Gen.C19.upgmaHeightFactor.1 : Nat) : Rat) / ((Gen.C19.upgmaHeightFactor.2 : Nat) : Rat))) ∧
     (∀ (s : NState) (i j k : Nat),
       brK s i j k = ((Gen.C19.njHalf.1 : Nat) : Rat) / ((Gen.C19.njHalf.2 : Nat) : Rat) * (s.d i k + s.d j k - s.d i j)) ∧
     (∀ (n : Nat) (s : NState) (i j : Nat),
       corrected n s i j = (((s.nrem : Int) - (Gen.C19.njCorrOffset : Nat) : Int) : Rat) * s.d i j
         - divergence n s i - divergence n s j) := by
   refine ⟨by decide, by decide, by decide, by decide, by decide, by decide, by decide, by decide, by decide, ?_, ?_, ?_⟩
-  · intro n s m i j; simp [UState.merge, upd, Gen.C19.upgmaHeightDivisor]
+  · intro n s m i j; simp [UState.merge, upd, Gen.C19.upgmaHeightFactor]; ring
   · intro s i j k; simp only [brK, Gen.C19.njHalf]; norm_num
   · intro n s i j; simp [corrected, Gen.C19.njCorrOffset]
 
